@@ -35,6 +35,8 @@ type c13Case struct {
 	// KeepaliveMs: keepalive interval of the client (0 = the 30 s default, which never fires within a case); a short one
 	// makes keepalives fall into the time the manager spends reconnecting
 	KeepaliveMs int `json:"keepalive_ms,omitempty"`
+	// TLS: every connection is upgraded with STARTTLS and the client insists on it (Insecure off)
+	TLS bool `json:"tls,omitempty"`
 }
 
 func genC13(t *rapid.T) c13Case {
@@ -43,6 +45,7 @@ func genC13(t *rapid.T) c13Case {
 	if rapid.IntRange(0, 2).Draw(t, "shortKeepalive") == 0 {
 		c.KeepaliveMs = rapid.IntRange(2, 40).Draw(t, "keepaliveMs")
 	}
+	c.TLS = rapid.IntRange(0, 2).Draw(t, "tls") == 0
 	n := rapid.IntRange(1, 3).Draw(t, "nloss")
 	for i := 0; i < n; i++ {
 		l := c13Loss{
@@ -81,6 +84,9 @@ func runC13(c c13Case) vh.Result {
 	if c.KeepaliveMs > 0 {
 		res.Label("short-keepalive")
 	}
+	if c.TLS {
+		res.Label("starttls")
+	}
 	var mu sync.Mutex
 	accepted := 0                  // connections accepted by the peer (all listeners)
 	var plan []string              // behaviour for the next accepted connections: ok-resume ok-bind cut-* sasl-failure
@@ -95,7 +101,7 @@ func runC13(c c13Case) vh.Result {
 			plan = plan[1:]
 		}
 		mu.Unlock()
-		script := &peer.Script{Mechs: []string{"PLAIN"}, OfferSM: true, SMId: "sm-c13", ResumeReply: "failed"}
+		script := &peer.Script{Mechs: []string{"PLAIN"}, OfferSM: true, SMId: "sm-c13", ResumeReply: "failed", OfferTLS: c.TLS, Cert: "valid"}
 		switch what {
 		case "ok-resume":
 			script.ResumeReply = "resumed-same"
@@ -145,7 +151,7 @@ func runC13(c c13Case) vh.Result {
 			s.Close()
 		}
 	}()
-	cl, rec, _, err := newTestClientCfg(addr, clientOpt{Insecure: true, SM: c.SM, Keepalive: time.Duration(c.KeepaliveMs) * time.Millisecond})
+	cl, rec, _, err := newTestClientCfg(addr, clientOpt{Insecure: !c.TLS, SM: c.SM, Keepalive: time.Duration(c.KeepaliveMs) * time.Millisecond})
 	if err != nil {
 		res.Fail("harness", "NewClient: %v", err)
 		return res
@@ -373,7 +379,7 @@ func runC13(c c13Case) vh.Result {
 
 var c13 = vh.Define(&vh.Def[c13Case]{
 	Property: "C13", Name: "streammanager",
-	Rule: "fault sequences of 1-3 losses on successive connections of a Client under StreamManager.Run (keepalive interval 2-40 ms in a third of the sequences, so that keepalives fall into the time spent reconnecting; 30 s otherwise): each loss = how the established connection ends (TCP reset, graceful TCP close, </stream:stream> from the server, a system-shutdown stream error followed by the stream end) after 0-3 stanzas in each direction x the server refusing connections for 0 or 10-150 ms (listener closed, later reopened on the same port) x 0-3 reconnection attempts that fail during negotiation (connection cut at stream open / auth / bind) x resumption confirmed or refused; optionally the last reconnection is rejected with a SASL failure (permanent), or Stop is called while the manager is still reconnecting against a server that is down; oracle on the peer's accept log and sessions: after each loss exactly one further session is established (resumed when the server confirms), exactly failing-attempts+1 connections reach the server, the new session receives and sends, PostConnect ran once per session, after the permanent error no further attempt is made within 600 ms, Stop makes Run return; non-trivial = at least one loss after establishment",
+	Rule: "fault sequences of 1-3 losses on successive connections of a Client under StreamManager.Run (keepalive interval 2-40 ms in a third of the sequences, so that keepalives fall into the time spent reconnecting; 30 s otherwise; every connection over STARTTLS with the client insisting on it in a third): each loss = how the established connection ends (TCP reset, graceful TCP close, </stream:stream> from the server, a system-shutdown stream error followed by the stream end) after 0-3 stanzas in each direction x the server refusing connections for 0 or 10-150 ms (listener closed, later reopened on the same port) x 0-3 reconnection attempts that fail during negotiation (connection cut at stream open / auth / bind) x resumption confirmed or refused; optionally the last reconnection is rejected with a SASL failure (permanent), or Stop is called while the manager is still reconnecting against a server that is down; oracle on the peer's accept log and sessions: after each loss exactly one further session is established (resumed when the server confirms), exactly failing-attempts+1 connections reach the server, the new session receives and sends, PostConnect ran once per session, after the permanent error no further attempt is made within 600 ms, Stop makes Run return; non-trivial = at least one loss after establishment",
 	Quick: 64, Thorough: 2500, Journal: true,
 	Gen: genC13, Run: runC13,
 })
